@@ -2,6 +2,8 @@ import Emerge.Cli
 import Emerge.Gen.FsOps
 import Emerge.Gen.CliFlags
 import Emerge.Proofs.CliArgs
+import Emerge.Ident
+import Emerge.Gen.IdRules
 /-
   C16 — success iff the package was fully written; flags honoured; existing files untouched.
 
@@ -313,6 +315,59 @@ theorem C16_extra_arguments_rejected (fl : Flags) (fs : FS) (input : InputState)
   · split
     · simp
     · simp
+
+/-! ### Which names are usable: `isIDValid` over the regenerated list of reserved names -/
+
+open Emerge.Ident in
+/-- **Reserved names are refused**: whatever the Unicode classes are, no keyword and no predeclared identifier of the Go
+    specification is a usable package name, nor is the blank identifier or the empty name - with the list of reserved
+    names, the regular expression and the statement of `isIDValid` re-extracted from the source on every run. -/
+theorem C16_reserved_names (isL isNd : Char → Bool) :
+    (∀ k ∈ goKeywords ++ goPredeclared, isIDValid isL isNd Gen.IdRules.builtin k = false) ∧
+    isIDValid isL isNd Gen.IdRules.builtin "_" = false ∧ isIDValid isL isNd Gen.IdRules.builtin "" = false ∧
+    Gen.IdRules.idRegex = "^[\\p{L}_][\\p{L}\\p{Nd}_]*$" ∧
+    Gen.IdRules.body_isIDValid =
+      "{ return idRegex.MatchString(name) && name != \"_\" && !generic.AnyMatch(builtin, func(s string) bool { return s == name }) }" := by
+  refine ⟨?_, ?_, ?_, rfl, rfl⟩
+  · intro k hk
+    have hc : Gen.IdRules.builtin.contains k = true := by
+      have : (goKeywords ++ goPredeclared).all (fun k => Gen.IdRules.builtin.contains k) = true := by decide +kernel
+      exact List.all_eq_true.mp this k hk
+    have hm : k ∈ Gen.IdRules.builtin := List.contains_iff_mem.mp hc
+    simp only [isIDValid, Bool.and_eq_false_iff, Bool.not_eq_false']
+    exact Or.inr hc
+  · simp [isIDValid]
+  · simp [isIDValid, shape]
+
+open Emerge.Ident in
+/-- **Only identifiers are usable**: a name the rule accepts starts with a letter or `_`, continues with letters, decimal
+    digits and `_` only (so no path separator, no dot, no blank, no minus), is not `_` and is not reserved; and the list of
+    reserved names holds nothing but the specification's keywords and predeclared identifiers (no ordinary name is refused
+    by the list). -/
+theorem C16_usable_names (isL isNd : Char → Bool) (name : String)
+    (h : isIDValid isL isNd Gen.IdRules.builtin name = true) :
+    (∃ c cs, name.toList = c :: cs ∧ (isL c = true ∨ c = '_') ∧ ∀ d ∈ cs, isL d = true ∨ isNd d = true ∨ d = '_') ∧
+    name ≠ "_" ∧ name ∉ Gen.IdRules.builtin ∧
+    (∀ b ∈ Gen.IdRules.builtin, b ∈ goKeywords ++ goPredeclared) := by
+  simp only [isIDValid, Bool.and_eq_true, Bool.not_eq_true', bne_iff_ne, ne_eq] at h
+  obtain ⟨⟨hs, hne⟩, hb⟩ := h
+  refine ⟨?_, hne, ?_, ?_⟩
+  · cases hl : name.toList with
+    | nil => simp [hl, shape] at hs
+    | cons c cs =>
+      simp only [hl, shape, Bool.and_eq_true, Bool.or_eq_true, beq_iff_eq, List.all_eq_true] at hs
+      exact ⟨c, cs, rfl, hs.1, fun d hd => by
+        rcases hs.2 d hd with (h1 | h2) | h3
+        · exact Or.inl h1
+        · exact Or.inr (Or.inl h2)
+        · exact Or.inr (Or.inr h3)⟩
+  · intro hm
+    have : Gen.IdRules.builtin.contains name = true := List.contains_iff_mem.mpr hm
+    rw [this] at hb
+    exact absurd hb (by decide)
+  · have : Gen.IdRules.builtin.all (fun b => (goKeywords ++ goPredeclared).contains b) = true := by decide +kernel
+    intro b hb'
+    exact List.contains_iff_mem.mp (List.all_eq_true.mp this b hb')
 
 /-! ### From the command line as typed to the flags: `flag.FlagSet.Parse` over the regenerated flag table -/
 
